@@ -25,6 +25,7 @@ type BindOpts struct {
 	MsgLoose   bool // the message's pricing is one the parser reads but the schema may refuse (discount >= 1, volume 0)
 	MsgPlain   bool // the message's pricing carries no promotions (whatever the stored pricing has)
 	Huge       bool // model the SDK's 255-bit range checks; the message's amounts are free up to 255 bits
+	MsgDec     bool // the message's price is written as a decimal number of any length ("1000.5stake")
 }
 
 // sceneBindingMsg: bind / update / enable / disable / refund-deposit through the handler, against
@@ -109,15 +110,21 @@ func sceneBindingMsg(op int, o BindOpts) {
 	text := ""
 	var newPricing types.Pricing
 	if op == opBind || (op == opUpdBinding && vf.Bool("m.hasPricing")) {
-		if o.MsgPlain {
+		if o.MsgDec {
+			text = vf.PricingTextDec("m.pricing", 0, 0)
+		} else if o.MsgPlain {
 			text = vf.PricingText("m.pricing", 0, 0)
 		} else if o.MsgLoose {
 			text = vf.PricingTextLoose("m.pricing", o.NT, o.NV)
 		} else {
 			text = vf.PricingText("m.pricing", o.NT, o.NV)
 		}
-		p, perr := k.ParsePricing(ctx, text)
-		vf.Assume(perr == nil)
+		var p types.Pricing
+		var perr error
+		// (if the parser itself panics on the text, so will the handler: the message is delivered all the same)
+		if !vf.Try(func() { p, perr = k.ParsePricing(ctx, text) }) {
+			vf.Assume(perr == nil)
+		}
 		newPricing = p
 	}
 	qos := uint64(0)
